@@ -408,6 +408,11 @@ pub fn oracle_c08(p: &Snap, s: &Snap, info: &StepInfo, checks: &mut u64) -> Fail
             t(&mut f, !s.fc_engine_on, "engine-off-not-recorded@fc", format!("state.engine_on={}", s.fc_engine_on));
         }
     }
+    if !s.is_conv && !s.is_hyb && info.engine_on == Some(false) {
+        // "a locomotive whose engine is commanded off consumes no ... auxiliary power in that step": the command zeroes
+        // the auxiliary load of every locomotive type, also of one that has no engine to switch off
+        t(&mut f, s.l_aux == 0.0 && s.res_aux == 0.0, "engine-off-aux-power@Locomotive::set_pwr_aux", format!("loco pwr_aux={} battery pwr_aux={}", s.l_aux, s.res_aux));
+    }
     if !s.is_conv {
         t(&mut f, s.res_loss >= -band, "negative-loss@res", format!("pwr_loss={}", s.res_loss));
         t(&mut f, eta_ok(s.res_eta), "eta-outside-(0,1]@res", format!("eta={}", s.res_eta));
